@@ -274,6 +274,15 @@ def check_species(case, ctx):
     if plain:
         ctx.close('C01.species/G=H-TS', v['G'], v['H'] - v['S'], rtol=1e-12, atol=1e-11 * sc)
         ctx.close('C01.species/F=U-TS', v['F'], v['U'] - v['S'], rtol=1e-12, atol=1e-11 * sc)
+        # ... and for the values with units, under the same options (kJ/mol, kJ/mol/K)
+        kwd = {k_: v_ for k_, v_ in kw.items() if k_ != 'T'}
+        Tk = kw['T']
+        dv = {'H': float(sm.get_H(units='kJ/mol', T=Tk, **kwd)), 'U': float(sm.get_U(units='kJ/mol', T=Tk, **kwd)),
+              'G': float(sm.get_G(units='kJ/mol', T=Tk, **kwd)), 'F': float(sm.get_F(units='kJ/mol', T=Tk, **kwd)),
+              'S': float(sm.get_S(units='kJ/mol/K', T=Tk, **kwd))}
+        dsc = 1e-11 * sc * 8.314e-3 * Tk
+        ctx.close('C01.species/G=H-TS:units', dv['G'], dv['H'] - Tk * dv['S'], rtol=1e-12, atol=dsc)
+        ctx.close('C01.species/F=U-TS:units', dv['F'], dv['U'] - Tk * dv['S'], rtol=1e-12, atol=dsc)
         # the same identities when entropies are taken relative to the elements (S_elements=True moves S, F and G together)
         se = {q: float(getattr(sm, GET[q])(S_elements=True, **kw)) for q in ('S', 'F', 'G')}
         ctx.close('C01.species/G=H-TS:S_elements', se['G'], v['H'] - se['S'], rtol=1e-12, atol=1e-11 * (sc + abs(se['S'])))
